@@ -128,6 +128,8 @@ def basic_oracle(chk, s, row, cls_prefix="C01"):
 BOUNDARY_LINES = [
     "18446744073709551615 PRINT 1", "18446744073709551614 PRINT 2", "DIM A(4294967295,4294967295)",
     "DIM B(1,1,1,1,1,1,1,1,1,1,1,1,1,1,1,1,1,1,1,1)", "DIM C(9223372036854775807)", "DIM D(18446744073709551615)",
+    "DIM E(1,9223372036854775807)", "DIM G(4095,4503599627370495)", "DIM H(1,1,4611686018427387903)", "DIM J(9999,1844674407370955)",
+    "DIM K(3,18446744073709551615)", "N=2^62 : DIM L(3,N)",
     "X = A(4294967296)", "X = A(9223372036854775808)", "X = A(-1)", "A(1e300) = 1", "GOTO 18446744073709551615",
     "GOTO 1e300", "GOSUB 18446744073709551616", "PRINT 1e308*10", "PRINT -(1e308*10)", "PRINT 0/0", "PRINT RND(-1)",
     "PRINT RND(1e300)", "PRINT INT(-0.5)", "PRINT 2^0.5", "PRINT (-8)^(1/3)", "PRINT 1/3", "FOR I = 1 TO 1e300 STEP 1e299",
@@ -286,6 +288,10 @@ def run_c16(chk):
         ["10 FOR I = 1 TO 3", "20 GOTO 10"], ["10 FOR I=1 TO 2", "20 FOR J=1 TO 2", "30 FOR K=1 TO 2", "40 NEXT I", "50 GOTO 10"],
         ["10 DIM A(9999)", "20 DIM B(10000)", "30 DIM C(99,99)", "40 DIM D(99,100)"],
         ["10 DIM A(21,21,21)", "20 A(21,21,21)=5", "30 PRINT A(21,21,21)", "40 PRINT A(22,0,0)"],
+        # products that reach 2^64 only at the LAST multiplication (small leading dimensions)
+        ["10 DIM A(1,9223372036854775807)"], ["10 DIM B(4095,4503599627370495)", "20 PRINT B(0,1)"],
+        ["10 N=2^62", "20 DIM C(3,N)", "30 PRINT C(0,1)"], ["10 DIM D(1,1,4611686018427387903)"],
+        ["10 DIM E(9999,1844674407370955)"], ["10 DIM F(3,18446744073709551615)"],
         ["10 X(1,2,3,4) = 1"], ["10 X(1,2,3) = 1 : PRINT X(10,10,10)"], ["10 A$ = 5"], ["10 A = \"x\""], ["10 A$(1) = 5"],
         ["10 DEF F(X$) = 1", "20 PRINT F(1)"], ["10 DEF F(X) = 1", "20 PRINT F(\"a\")"], ["10 READ A", "20 DATA x"],
         ["10 READ A$", "20 DATA 5"], ["10 INPUT A"], ["10 FOR A$ = 1 TO 2"], ["10 GOSUB 20", "20 GOSUB 10"],
